@@ -674,12 +674,14 @@ package main
 //@   assert at call media.Handler.Download [C16] api_key_checked: isValid
 //@   assert at call media.Handler.Download [C16] authenticated: uid != types.ZeroUid && challenge == nil && err == nil
 //@   assert at call media.Handler.Headers#2 [C16] method_checked: req.Method == "GET" || req.Method == "HEAD"
+//@   assert at call media.Handler.Headers#2 [C16] only_after_checks: isValid && uid != types.ZeroUid && challenge == nil
 
 //@ func largeFileReceive(wrt http.ResponseWriter, req *http.Request)
 //@   requires [C16] wrt != nil && req != nil && req.URL != nil
 //@   modifies *
 //@   assert at call media.Handler.Upload [C16] api_key_checked: isValid
 //@   assert at call media.Handler.Headers#2 [C16] method_checked: req.Method == "POST" || req.Method == "PUT" || req.Method == "HEAD"
+//@   assert at call media.Handler.Headers#2 [C16] only_after_checks: isValid && challenge == nil
 //@   assert at call media.Handler.Upload [C16] no_challenge_pending: challenge == nil
 // (the statement of C16 allows no exception: the sign-up avatar upload without credentials is a known finding)
 //@   assert at call media.Handler.Upload [C16] authenticated: uid != types.ZeroUid
